@@ -89,6 +89,12 @@ for iters in (2, 6, 10):
         #  mismatch and the job would be inconclusive)
         thorough.append(job("c11.mtenet", secs=300, qto=1000, allow=AL, n=3, p=2, icpt=0, centred=0, pen=pen, l1=l1, iters=iters, ob=GAP_SIGN | FINITE, div=5))
 
+# multi-task jobs with two features multiply 2-D arrays (X^T R): for f64 ndarray calls matrixmultiply's FMA kernels, for
+# any other scalar plain loops; outputs agree to rounding only, so the witness validation compares them to 1e-9 relative
+for _j in quick + thorough:
+    if _j["h"] == "c11.mtenet" and _j["p"].get("p", 1) >= 2:
+        _j["obs_reltol"] = 1e-9
+
 SUGGESTED_KNOWN_FINDINGS = [
     {"property": "C11", "harness": "c11.enet", "params": {"icpt": 1, "centred": 0, "ob": ICPT}, "check": "enet.intercept stationarity (mean residual zero)",
      "what": "ElasticNet::fit with_intercept on un-centred features: compute_intercept (algorithm.rs:514) returns the target mean and never subtracts mean(X).w, so (w,b) is not stationary in b; x=(1,2), y=(1,2), penalty 0: w=0.1, b=1.5, sum of residuals -0.3 (the minimiser is w=1, b=0)"},
